@@ -700,6 +700,10 @@ class Interp:
 
     def _margin(self, a, b):
         d = np.abs(np.asarray(a) - np.asarray(b))
+        if d.size and not np.all(np.isfinite(d)):
+            # an undefined operand of a comparison: the case is outside the domain of the expression
+            self.cond_margin = 0.0
+            return
         if d.size:
             self.cond_margin = min(getattr(self, "cond_margin", math.inf), float(np.min(d)))
 
